@@ -790,6 +790,122 @@ func ruleP11(c *Ctx, id string) {
 				}
 			}
 		}
+		// (a'') head-and-last lists: when the callback links through "last.Nextentry" (last = a captured variable),
+		// every path also makes the new entry the last one, and every path stores it either behind the previous
+		// entry or into another captured variable (the head) - and the head is what the lister returns
+		{
+			var tail *ssa.FreeVar
+			for _, b := range cb.Blocks {
+				for _, in := range b.Instrs {
+					if st, ok := in.(*ssa.Store); ok {
+						if fa, isFA := st.Addr.(*ssa.FieldAddr); isFA {
+							if n, f, _ := FieldOf(fa); n != nil && f == "Nextentry" {
+								if ld, isL := stripConv(fa.X).(*ssa.UnOp); isL && ld.Op == token.MUL {
+									if fv, isFV := ld.X.(*ssa.FreeVar); isFV {
+										tail = fv
+									}
+								}
+							}
+						}
+					}
+				}
+			}
+			if tail == nil {
+				// ... or the variable the callback tests for nil before it links
+				for _, br := range branches(cb) {
+					if br.Cond.Op != token.EQL && br.Cond.Op != token.NEQ {
+						continue
+					}
+					for _, pr2 := range [][2]ssa.Value{{br.Cond.X, br.Cond.Y}, {br.Cond.Y, br.Cond.X}} {
+						if pr2[0] == nil || pr2[1] == nil || !isNilConst(pr2[1]) {
+							continue
+						}
+						if ld, isL := stripConv(pr2[0]).(*ssa.UnOp); isL && ld.Op == token.MUL {
+							if fv, isFV := ld.X.(*ssa.FreeVar); isFV {
+								tail = fv
+							}
+						}
+					}
+				}
+			}
+			if tail != nil {
+				toCell := func(cell *ssa.FreeVar) func(ssa.Instruction) bool {
+					return func(in ssa.Instruction) bool {
+						st, ok := in.(*ssa.Store)
+						return ok && st.Addr == ssa.Value(cell) && isNew(stripConv(st.Val))
+					}
+				}
+				behind := func(in ssa.Instruction) bool {
+					st, ok := in.(*ssa.Store)
+					if !ok || !isNew(stripConv(st.Val)) {
+						return false
+					}
+					fa, isFA := st.Addr.(*ssa.FieldAddr)
+					if !isFA {
+						return false
+					}
+					n, f, _ := FieldOf(fa)
+					return n != nil && f == "Nextentry"
+				}
+				var heads []*ssa.FreeVar
+				for _, fv := range cb.FreeVars {
+					if fv == tail {
+						continue
+					}
+					for _, r := range refs(fv) {
+						if toCell(fv)(r) {
+							heads = append(heads, fv)
+							break
+						}
+					}
+				}
+				e0 := cb.Blocks[0].Instrs[0]
+				lastOK := toCell(tail)(e0) || MustAfter(cb, toCell(tail), nil)(e0)
+				R.Check(lastOK, id, pr.lister+"|every entry becomes the last one", P.Pos(cb.Pos()), "every path of the callback stores the new entry into the 'last entry' variable", "must-follow", "a path links the entry but does not make it the last one: the next entry is linked behind an older one and replaces what was there - entries vanish from the listing")
+				placed := func(in ssa.Instruction) bool {
+					if behind(in) {
+						return true
+					}
+					for _, h := range heads {
+						if toCell(h)(in) {
+							return true
+						}
+					}
+					return false
+				}
+				placedOK := placed(e0) || MustAfter(cb, placed, nil)(e0)
+				R.Check(len(heads) > 0 && placedOK, id, pr.lister+"|every entry is placed in the list", P.Pos(cb.Pos()), "every path stores the new entry into the head variable or behind the previous entry", fmt.Sprintf("%d head variable(s)", len(heads)), "an entry is made the last one without being reachable from the head: the listing is empty, or ends after its first entry")
+				// the head is what is returned: the lister's Entries come from a variable the callback fills
+				fromHead := false
+				for _, b := range ls.Blocks {
+					for _, in := range b.Instrs {
+						st, ok := in.(*ssa.Store)
+						if !ok {
+							continue
+						}
+						if _, f, _ := FieldOf(st.Addr); f != "Entries" {
+							continue
+						}
+						if ld, isL := stripConv(st.Val).(*ssa.UnOp); isL && ld.Op == token.MUL {
+							// the cell the lister owns, bound into the callback as one of its heads
+							for i, fv := range cb.FreeVars {
+								for _, h := range heads {
+									if fv != h {
+										continue
+									}
+									if mc, isMC := args[len(args)-1].(*ssa.MakeClosure); isMC && i < len(mc.Bindings) && mc.Bindings[i] == ld.X {
+										fromHead = true
+									}
+								}
+							}
+						}
+					}
+				}
+				if len(heads) > 0 {
+					R.Check(fromHead, id, pr.lister+"|the list returned is the one built", P.Pos(ls.Pos()), "Entries is loaded from the head variable the callback fills", "same cell", "the lister returns another variable than the head of the list its callback builds")
+				}
+			}
+		}
 		// (b) the result: Entries from the list head, Eof from the scanner's answer
 		okEof, okEnt := false, false
 		for _, b := range ls.Blocks {
